@@ -223,7 +223,7 @@ def vget (σ : State) (x : String) : Nat := σ (V x)
     of the wallet in use, else any credit with that outpoint; the transaction is re-read from the node at the
     recorded location and must carry the requested id) -/
 def existsTxM (st : St) (tx : String) (vout : Nat) : Option (Tx × BlockMeta) :=
-  Model.ApiLedger.existsTx st.led.store st.led.node (st.cur.getD "") tx vout
+  Model.ApiLedger.existsTx (Led.lenOf st.led.shape) st.led.store st.led.node (st.cur.getD "") tx vout
 
 def existsTx (st : St) (tx : String) (vout : Nat) : Bool := (existsTxM st tx vout).isSome
 
